@@ -628,6 +628,8 @@ class Piece:
             if name in ("serde", "allow", "cfg", "doc", "test"):
                 if name == "cfg" and "crypto_openssl" not in inner and "unix" not in inner:
                     raise Undecided(f"cfg attribute outside the closed list: {inner}")
+                if name == "serde":
+                    self._note_serde(inner)
                 self._add(start, end, "", "T-ATTR")
             elif name == "derive":
                 names = [x.strip() for x in inner[inner.index("(") + 1:inner.rindex(")")].split(",") if x.strip()]
@@ -635,6 +637,12 @@ class Piece:
                 if keep != names:
                     self._add(start, end, f"#[derive({', '.join(keep)})]" if keep else "", "T-ATTR")
             k = close + 1
+
+    def _note_serde(self, inner, where=""):
+        """a dropped #[serde(..)] attribute is part of the type's JSON wire mapping, which the contracts take from the
+        trusted JSON model: it is recorded, and a difference with the recorded baseline makes the unit undecided"""
+        key = f"{self.relpath}::{self.spec}"
+        self.unit.attrsigs.setdefault(key, []).append((where + ":" if where else "") + "".join(inner.split()))
 
     def _inner_attr_strip(self, k0, k1):
         """strip #[serde(..)] / #[cfg(feature = "crypto_openssl")] attributes inside an item."""
@@ -646,6 +654,14 @@ class Piece:
                 name = toks[k + 2].text
                 inner = self.sf.text[toks[k + 1].end:toks[close].start]
                 if name == "serde" or (name == "cfg" and "crypto_openssl" in inner) or name == "allow":
+                    if name == "serde":
+                        # which field / variant it sits on: the next identifier that is not part of an attribute
+                        j_ = close + 1
+                        while j_ < k1 and toks[j_].text == "#":
+                            j_ = match_close(toks, j_ + 1) + 1
+                        while j_ < k1 and toks[j_].text in ("pub", "(", "crate", ")"):
+                            j_ += 1
+                        self._note_serde(inner, toks[j_].text if j_ < k1 else "?")
                     self._add(toks[k].start, toks[close].end, "", "T-ATTR")
                 elif name == "cfg" and ("ed25519" in inner or "ed448" in inner):
                     # the build script turns both features on with every OpenSSL >= 1.1.1: cfg(feature = "ed25519") is true
@@ -907,6 +923,23 @@ class Piece:
             self._add(toks[kb].end, toks[kb].end, "\n" + fs.body_start + "\n", "insert")
         # loops
         lps = loops_in(toks, kb, k1)
+        # a loop may be named by its ordinal or by a regex over its header (`for x in xs.iter()` ..): a keyed contract follows its
+        # loop when statements are moved around
+        def _loop_no(key):
+            if isinstance(key, int):
+                return key
+            hits = [n_ + 1 for n_, (kw_, ko_) in enumerate(lps) if re.search(key, " ".join(self.sf.text[toks[kw_].start:toks[ko_].start].split()))]
+            if len(hits) != 1:
+                raise Undecided(f"{fn.name}: {len(hits)} loops match /{key}/ (the contract names one loop by its header)")
+            return hits[0]
+        keyed_ = bool(fs.loops) and all(isinstance(k_, str) for k_ in list(fs.loops) + list(getattr(fs, "counted", None) or {})
+                                        + [a_[2] for a_ in fs.at if a_[0] in ("loop_start", "loop_iter", "loop_end", "loop_after")])
+        if any(isinstance(k_, str) for k_ in list(fs.loops) + list(getattr(fs, "counted", None) or {})) or any(a_[0].startswith("loop_") and isinstance(a_[2], str) for a_ in fs.at):
+            import copy as _copy
+            fs = _copy.copy(fs)
+            fs.loops = {_loop_no(k_): v_ for k_, v_ in fs.loops.items()}
+            fs.counted = {_loop_no(k_): v_ for k_, v_ in (getattr(fs, "counted", None) or {}).items()}
+            fs.at = [tuple([a_[0], a_[1], _loop_no(a_[2])] + list(a_[3:])) if a_[0].startswith("loop_") else a_ for a_ in fs.at]
         if self.unit.vacuity and "external_body" not in (fs.attrs or ""):
             self._add(toks[kb].end, toks[kb].end, f"\nproof {{ assert(false); }} //@VACUITY.entry.{fn.name}\n", "insert", order=-5)
             isolated = "loop_isolation(false)" not in (fs.attrs or "")
@@ -976,6 +1009,9 @@ class Piece:
             pa, pb = a.split("|"), b.split("|")
             if len(pa) != len(pb):
                 return False
+            if keyed_ and not (getattr(fs, "counted", None) or {}):
+                # every loop contract of this function is keyed by its loop's header: the order of the (top-level) loops is free
+                pa, pb = sorted(pa), sorted(pb)
             for n_, (x, y) in enumerate(zip(pa, pb), 1):
                 hx, _, jx = x.partition(":")
                 hy, _, jy = y.partition(":")
@@ -1069,6 +1105,13 @@ class Piece:
                         break
                     j -= 1
                 p = toks[j + 1].start
+                self._add(p, p, "\n" + text + "\n", arule)
+                continue
+            if where == "loop_after":
+                # right after the closing brace of loop #k (whatever statement follows it)
+                if occ < 1 or occ > len(lps):
+                    raise Undecided(f"{fn.name}: loop #{occ} not found")
+                p = toks[match_close(toks, lps[occ - 1][1])].end
                 self._add(p, p, "\n" + text + "\n", arule)
                 continue
             if where == "loop_end":
@@ -1276,6 +1319,12 @@ class Piece:
                 self._add(toks[k].start, toks[kc].end, '"<build-time constant>"', "T-ENV")
 
     def render(self):
+        if getattr(self, "_rendered", None) is not None:
+            return self._rendered
+        self._rendered = self._render()
+        return self._rendered
+
+    def _render(self):
         it = self.item
         self._strip_attrs()
         self._env_rewrite()
@@ -1437,6 +1486,11 @@ class Unit:
             self.baseline_loopsigs = _json.load(open(os.path.join(VERIF, "baseline_shapes.json"))).get("__loopsig__", {}).get(name, {})
         except Exception:
             self.baseline_loopsigs = {}
+        try:
+            self.baseline_attrs = _json.load(open(os.path.join(VERIF, "baseline_shapes.json"))).get("__attrs__", {}).get(name)
+        except Exception:
+            self.baseline_attrs = None
+        self.attrsigs = {}   # item -> the serde attributes the extraction dropped from it (T-ATTR): the JSON wire mapping of the type
         self.loopsigs = {}
         self.reshaped = set()   # functions whose loops have another control skeleton than the one their contracts were written for
         self.macro_fns = {}  # name -> call template (T-MACRO-FN: the macro body lives in a verified helper fn)
@@ -1609,6 +1663,25 @@ class Unit:
                 name = mm.group(2) or full.split("::")[-1]
                 out.append((name, full + (f" as {mm.group(2)}" if mm.group(2) else "")))
         uses, consts = [], []
+        # a constant may be used from another module of the unit (`http::HEADER_X` from acme_proto/http.rs): every source file
+        # that has a piece in this module is searched, against the verified text of the whole unit
+        if not hasattr(self, "_all_vtext"):
+            self._all_vtext = ""
+            for m2 in self.modules.values():
+                for part in m2["parts"]:
+                    if part[0] != "raw" and part[1].mode == "verify":
+                        pre2, segs2, post2 = part[1].render()
+                        self._all_vtext += pre2 + "".join(x[1] for x in segs2) + post2 + "\n"
+        for relpath in sorted({part[1].relpath for part in m["parts"] if part[0] != "raw" and "#" not in part[1].relpath} - set(vtexts)):
+            try:
+                src = open(os.path.join(REPO, relpath), encoding="utf-8").read()
+            except OSError:
+                continue
+            for mc in re.finditer(r"(?m)^(?:pub(?:\([^)]*\))?\s+)?const\s+(\w+)\s*:[^;]+;", src):
+                name = mc.group(1)
+                if re.search(r"\b" + re.escape(name) + r"\b", self._all_vtext) and not declared(name) and mc.group(0) not in consts:
+                    consts.append(mc.group(0))
+                    self.auto_log.append({"rule": "T-CONST", "file": relpath, "item": name, "from": mc.group(0), "to": mc.group(0)})
         for relpath, vt in vtexts.items():
             try:
                 src = open(os.path.join(REPO, relpath), encoding="utf-8").read()
@@ -1625,9 +1698,11 @@ class Unit:
                         self.auto_log.append({"rule": "T-USE", "file": relpath, "item": name, "from": f"use {full};", "to": f"use {full};"})
             for mc in re.finditer(r"(?m)^(?:pub(?:\([^)]*\))?\s+)?const\s+(\w+)\s*:[^;]+;", src):
                 name = mc.group(1)
-                if re.search(r"\b" + re.escape(name) + r"\b", vt) and not declared(name) and mc.group(0) not in consts:
+                if re.search(r"\b" + re.escape(name) + r"\b", vt + self._all_vtext) and not declared(name) and mc.group(0) not in consts:
                     consts.append(mc.group(0))
                     self.auto_log.append({"rule": "T-CONST", "file": relpath, "item": name, "from": mc.group(0), "to": mc.group(0)})
+        # inside verus! a reference type in a const needs its lifetime spelled out (as for the constants a unit takes by name)
+        consts = [re.sub(r":\s*&\s*(?!')", ": &'static ", c_, count=1) for c_ in consts]
         return uses, consts
 
     def build(self):
@@ -1694,4 +1769,9 @@ class Unit:
                 emit("}\n", kind="glue")
         emit_module("", tree, 0)
         emit("fn main() {}\n", kind="glue")
+        if self.baseline_attrs is not None:
+            for key in sorted(set(self.attrsigs) | set(self.baseline_attrs)):
+                if self.attrsigs.get(key, []) != self.baseline_attrs.get(key, []):
+                    raise Undecided(f"{key}: its serde attributes differ from the recorded ones ({self.baseline_attrs.get(key, [])} -> {self.attrsigs.get(key, [])}): "
+                                    "the JSON wire mapping of this type is part of the trusted model the contracts were written against")
         return "".join(out), regions
